@@ -50,6 +50,7 @@ type FuncContract struct {
 	Line     int
 	Opts     map[string]string
 	AssumesAt map[string][]*Clause // point -> assumptions taken there ("recv N")
+	Binds    map[string]string // closures: captured func variable -> key of the sibling closure it holds
 	PubCells []string // closures: captured variables written once by the token holder before close(PubChan), read only after it is closed
 	PubChan  string
 	PubToken string
@@ -344,6 +345,20 @@ func ParseSpecFile(path, pkgPath string, ps *PkgSpec) error {
 				return err
 			}
 			curF.LocalMon.Invs = append(curF.LocalMon.Invs, c)
+		case "bind":
+			// bind <captured func variable> = <closure key>: the captured variable holds that sibling closure,
+			// created over the same variables (checked where this closure is created)
+			if curF == nil {
+				return fail(l.n, "bind outside func block")
+			}
+			v, key, ok := strings.Cut(rest, "=")
+			if !ok {
+				return fail(l.n, "bind needs '<var> = <closure key>'")
+			}
+			if curF.Binds == nil {
+				curF.Binds = map[string]string{}
+			}
+			curF.Binds[strings.TrimSpace(v)] = strings.TrimSpace(key)
 		case "captured":
 			if curF == nil {
 				return fail(l.n, "captured outside func block")
